@@ -798,6 +798,17 @@ func (vc *VC) compileCall(env *Env, n *SNode) *Val {
 		need(2)
 		a, b := vc.compile(env, args[0]), vc.compile(env, args[1])
 		return vc.boolVal(sNot(sEq(vc.refOf(a), vc.refOf(b))))
+	case "disjoint":
+		// disjoint(p, q): the cells p denotes and the cells q denotes do not overlap (different objects, or
+		// non-overlapping windows of one object; offsets are below 2^40, so the sums do not wrap)
+		need(2)
+		a, b := vc.compile(env, args[0]), vc.compile(env, args[1])
+		ar, ao, an := vc.regionOf(a)
+		br, bo, bn := vc.regionOf(b)
+		if an == "" || bn == "" {
+			return vc.boolVal(sNot(sEq(ar, br)))
+		}
+		return vc.boolVal(sOr(sNot(sEq(ar, br)), bvCmp("bvule", bvBin("bvadd", ao, an), bo), bvCmp("bvule", bvBin("bvadd", bo, bn), ao)))
 	case "within":
 		// within(p, q): the cells p denotes lie inside the cells q denotes
 		need(2)
